@@ -29,7 +29,9 @@ def make_input(volumes, freqs):
     nv, nq, np_ = freqs.shape
     vols = [VolumeData(0.0, float(volumes[i]), 0.0, [QPointData((0.0, 0.0, float(q)), [float(x) for x in freqs[i, q]]) for q in range(nq)])
             for i in range(nv)]
-    return QHAInputData(nv, nq, np_, 1, np_ // 3, [((0.0, 0.0, float(q)), 1.0) for q in range(nq)], vols)
+    # (weights of all sorts, a vanishing one among them: they belong to the sums over q-points, not to the interpolation of a mode)
+    w = [1.0, 0.0, 6.0, 2.5, 1e-9]
+    return QHAInputData(nv, nq, np_, 1, np_ // 3, [((0.0, 0.0, float(q)), w[(q + nv) % len(w)]) for q in range(nq)], vols)
 
 
 def grid(volumes, ntv=25, ratio=1.2):
